@@ -28,7 +28,7 @@ def run_eval(sd, dest, run, props, skip_confirm=False):
     return p.stdout + p.stderr
 
 # import new seeds
-for d in sorted(glob.glob('/tmp/wt*-C*/_seed/[mnpqr][0-9]')):
+for d in sorted(glob.glob('/tmp/wt*-C*/_seed/[mnpqrs][0-9]')):
     prop = re.search(r'wt\d?-(C\d+)', d).group(1)
     sid = f'{prop}-{os.path.basename(d)}'
     dst = f'{VERIF}/seeded/{sid}'
@@ -43,7 +43,7 @@ for d in sorted(glob.glob('/tmp/wt*-C*/_seed/[mnpqr][0-9]')):
             shutil.copy(f'{d}/{f}', dst)
     print('imported', sid)
 
-for dst in sorted(glob.glob(f'{VERIF}/seeded/C*-[mnpqr]*')):
+for dst in sorted(glob.glob(f'{VERIF}/seeded/C*-[mnpqrs]*')):
     sid = os.path.basename(dst)
     if only and sid != only:
         continue
